@@ -14,6 +14,7 @@ import vlib
 import c2lean
 
 GEN_MODULE = "XzVerif.Gen.Kernels"
+TABLES_MODULE = "XzVerif.Gen.KernelsTables"
 GRID_MODULE = "XzVerif.Gen.KernelsGrid"
 PROP_MODULES = ["XzVerif.Props.Kernels"]
 
@@ -184,7 +185,11 @@ def regenerate(kernels=None, write=True):
            "  explicit `% 2^w`, signed on `Int`, `bool` as `Bool`; fields read through a pointer parameter `p` are the",
            "  parameters `p_field`; `sizeof`/enumerator values come from a probe compiled with the build's flags.",
            "  Bridged to the hand-written models in Props/Kernels.lean; evaluated against the compiled C code in Gen/KernelsGrid.lean.",
-           "-/", "set_option linter.unusedVariables false", "", "namespace XzVerif.Gen.Kernels", ""]
+           "-/", "import XzVerif.Gen.KernelsTables", "", "set_option linter.unusedVariables false", "", "namespace XzVerif.Gen.Kernels", ""]
+    tabs = ["/-", "  GENERATED by tools/kernels_stage.py — do not edit.",
+            "  Global `const` tables read by the translated kernels of Gen/Kernels.lean, as linked into a probe built with the",
+            "  flags of the build under test (kept in a module of their own so that a kernel change does not recompile them).",
+            "-/", "namespace XzVerif.Gen.Kernels", ""]
     tables_done = set()
     for spec in kernels:
         k = res[spec["name"]]
@@ -196,11 +201,12 @@ def regenerate(kernels=None, write=True):
             if r.startswith("table:") and r not in tables_done:
                 tables_done.add(r)
                 name, et, ln = r.split(":", 1)[1].rsplit(":", 2)
-                gen += [c2lean.table_def(c2lean.lean_ident(name), consts_by_unit[spec["src"]][r], "`const %s %s[%s]` as linked into the probe" % (et, name, ln)), ""]
+                tabs += [c2lean.table_def(c2lean.lean_ident(name), consts_by_unit[spec["src"]][r], "`const %s %s[%s]` as linked into the probe" % (et, name, ln)), ""]
         for d in k.defs:
             gen += [d, ""]
         done.add(spec["name"])
     gen += ["end XzVerif.Gen.Kernels", ""]
+    tabs += ["end XzVerif.Gen.Kernels", ""]
     grid = ["/-", "  GENERATED by tools/kernels_stage.py — do not edit.",
             "  Each line is the value the COMPILED C function returned for these arguments (probe built with the flags of the",
             "  build under test, -DNDEBUG), checked by kernel evaluation against the translated definition of Gen/Kernels.lean:",
@@ -223,6 +229,7 @@ def regenerate(kernels=None, write=True):
         grid.append("")
     grid += ["end XzVerif.Gen.KernelsGrid", ""]
     if write:
+        vlib.write_if_changed(vlib.module_path(TABLES_MODULE), "\n".join(tabs))
         vlib.write_if_changed(vlib.module_path(GEN_MODULE), "\n".join(gen))
         vlib.write_if_changed(vlib.module_path(GRID_MODULE), "\n".join(grid))
     info = {"translated": sorted(done), "failed": [f[0] for f in failures], "grid_points": npts, "t_ast_s": round(t_ast, 1), "t_const_s": round(t_const, 1),
